@@ -14,7 +14,7 @@ from .core import Inconclusive, log
 def run_check(prop, tier, seed):
     t0 = time.time()
     P = props.PROPS[prop]
-    work = os.path.join(core.OUT, prop)
+    work = os.path.join(core.OUT, '%s_%d' % (prop, os.getpid()))   # private to this invocation
     shutil.rmtree(work, ignore_errors=True)
     os.makedirs(work, exist_ok=True)
     known = core.load_known()
@@ -129,7 +129,7 @@ def run_check(prop, tier, seed):
 def replay(path):
     rec = json.load(open(path))
     prop = rec['property']
-    work = os.path.join(core.OUT, 'replay')
+    work = os.path.join(core.OUT, 'replay_%d' % os.getpid())
     shutil.rmtree(work, ignore_errors=True)
     os.makedirs(work)
     driver = core.build_driver(work)
@@ -149,7 +149,7 @@ def replay(path):
 def one(prop, tagsub, tier='quick', seed=1):
     """development aid: run the scenarios of a property whose tag contains tagsub and print the diagnosis"""
     scens = [s for s in gen.generate(prop, tier, seed) if tagsub in s.get('tag', '')][:3]
-    work = os.path.join(core.OUT, 'one')
+    work = os.path.join(core.OUT, 'one_%d' % os.getpid())
     shutil.rmtree(work, ignore_errors=True)
     os.makedirs(work)
     driver = core.build_driver(work)
